@@ -128,6 +128,22 @@ def grad_connected(h, ctx, results):
             gs.add(r._g.get("leaf"))
         missing = sorted(val - gs)
         ensure(h, ctx, "C16.value-dependencies-are-gradient-connected", z3.BoolVal(not missing), meta={"missing": missing, "valset": sorted(val), "gradset": sorted(map(str, gs))})
+        # no dependence on a leaf along a path that autograd does not record (an alias introduced at a detach / no_grad cut whose definition
+        # mentions the leaf): with such a path the gradient returned differs from the derivative of the value
+        defs = ctx.notes.get("gcut_defs", {})
+        if ctx.notes.get("grad_alias") and not getattr(h, "cuts_allowed", False):
+            through = set()
+            seen = set()
+            def expand(t):
+                for sid in T.base_symbols(t):
+                    if sid in defs and sid not in seen:
+                        seen.add(sid)
+                        for s2 in T.base_symbols(defs[sid][1]):
+                            if s2 in leaf_of: through.add(leaf_of[s2])
+                        expand(defs[sid][1])
+            for e in P(r).reshape(-1):
+                expand(e)
+            ensure(h, ctx, "C16.no-value-dependence-through-a-gradient-cut", z3.BoolVal(not through), meta={"leaves": sorted(through)})
 
 
 def zabs(t):
@@ -214,6 +230,7 @@ def transform_harness(spec, mode, props, dtype=None):
         x = h.inp("x", spec.shape, xdtype)
         c = h.inp("context", spec.ctx_shape, xdtype) if spec.ctx_shape else None
         if "C16" in props:
+            ctx.notes["grad_alias"] = True
             for nm_, t_ in (("x", x), ("context", c)):
                 if t_ is not None:
                     t_._g = {"requires_grad": True, "leaf": nm_}
